@@ -19,7 +19,7 @@ Lemma opt_eqb_refl o : opt_eqb Z.eqb o o = true.
 Proof. destruct o; cbn; [apply Z.eqb_refl | reflexivity]. Qed.
 Lemma st_eqb_refl a : st_eqb a a = true.
 Proof.
-  unfold st_eqb. rewrite !Z.eqb_refl, pair_eqb_refl, !opt_eqb_refl, Nat.eqb_refl.
+  unfold st_eqb. rewrite !Z.eqb_refl, pair_eqb_refl, !opt_eqb_refl, Nat.eqb_refl, Bool.eqb_reflx.
   rewrite !(list_eqb_refl Z.eqb Z.eqb_refl), (list_eqb_refl pair_eqb pair_eqb_refl). reflexivity.
 Qed.
 
@@ -168,6 +168,14 @@ Section Main.
     - (* SetPV *) destruct (call_vld_cases k e 0 v) as [[H1 H2]|[H1 H2]]; rewrite H1, H2; [left | right]; split; reflexivity.
     - (* SetDPV *) destruct (call_vld_cases k e 0 v) as [[H1 H2]|[H1 H2]]; rewrite H1, H2; [left | right]; split; reflexivity.
     - (* DelPV *) right; split; reflexivity.
+    - (* RegDot *) destruct (chreg s0); [right; split; reflexivity|]. destruct (ch s0); [right; split; reflexivity|].
+      destruct (call_plain_cases k e 0) as [[H1 H2]|[H1 H2]]; rewrite H1, H2; [left | right]; split; reflexivity.
+    - (* UnregDot *) right; split; reflexivity.
+    - (* ReadCh *) destruct (ch s0); [right; split; reflexivity|].
+      destruct (call_plain_cases k e 0) as [[H1 H2]|[H1 H2]]; rewrite H1, H2; [left | right]; split; reflexivity.
+    - (* SetCV *) destruct (ch s0); [right; split; reflexivity|].
+      destruct (call_plain_cases k e 0) as [[H1 H2]|[H1 H2]]; rewrite H1, H2; [left | right]; split; reflexivity.
+    - (* SetU *) destruct (call_plain_cases k e 0) as [[H1 H2]|[H1 H2]]; rewrite H1, H2; [left | right]; split; reflexivity.
   Qed.
 
   (* whatever the plan, an operation that raises has touched nothing and notified nobody *)
@@ -265,6 +273,13 @@ Section Main.
         [| intros H; apply Hr in H; subst e0; left; eapply call_vld_nofault; exact E].
       destruct (Z.eqb y (dpv s0)); apply Hd.
     - (* DelPV *) destruct (pv s0) as [o|]; [destruct (Z.eqb o (dpv s0))|]; apply Hd.
+    - (* RegDot *) destruct (chreg s0); [apply Hd|]. destruct (ch s0); apply Hd.
+    - (* UnregDot *) destruct (chreg s0); apply Hd.
+    - (* ReadCh *) destruct (ch s0); apply Hd.
+    - (* SetCV *) destruct (ch s0) as [old|]; [destruct (Z.eqb v old); apply Hd|]. cbn [call_plain call_fault].
+      destruct (Z.eqb v 0); apply Hd.
+    - (* SetU *) cbn [call_plain call_fault]. destruct (vld v); [apply Hd|]. destruct (Z.leb 100 v); [apply Hd|].
+      intros H; apply Hr in H; subst e; left; reflexivity.
   Qed.
 
   (* ---- one operation under a handler fault ------------------------------------------ *)
